@@ -56,7 +56,8 @@ pub fn gen_history(rng: &mut Rng, tier: Tier) -> (String, Vec<Op>) {
         tag
     };
     // 0 write, 1 batch, 2 undo, 3 rotate, 4 truncate, 5 sync, 6 syncmode, 7 reopen, 8 read_pages
-    let weights = [38u32, 14, 8, 8, 6, 5, 6, 11, 4];
+    // 9 damage_reopen
+    let weights = [38u32, 14, 8, 8, 6, 5, 6, 11, 4, 4];
     for _ in 0..n_ops {
         let db_size = *rng.pick(&[0u32, 6, 8]);
         let op = match rng.weighted(&weights) {
@@ -80,6 +81,7 @@ pub fn gen_history(rng: &mut Rng, tier: Tier) -> (String, Vec<Op>) {
             5 => Op::Sync,
             6 => Op::SyncMode { mode: rng.pick(&["full", "normal", "off"]).to_string() },
             7 => Op::Reopen,
+            9 => Op::DamageReopen { back: rng.below(3) as u32, how: rng.pick(&["flip", "zero"]).to_string() },
             _ => Op::ReadPages,
         };
         ops.push(op);
